@@ -30,9 +30,15 @@ Sources of each rule (S = TAP 13 specification, P = property sentence, F = fixtu
   `duplicate-number`; some number of 1..M never seen (M = N if there is a plan, else the highest number
   seen; F test_out_of_order_no_plan) -> `missing-number`; a number > N -> `number-beyond-plan` (P).
   Out-of-order but complete numbering is fine (F test_out_of_order).
+* numbers of any length are numbers (S puts no bound on them; P "no input makes the parser raise").  The reference
+  counts with their exact value (`to_int`).  Only the *value reported* for a subtest whose number was written with
+  more digits than the interpreter's int() converts (sys.get_int_max_str_digits(), 4300 by default) is left open
+  (`Interp.loose`): the documents do not say how a harness has to represent such a number.  Such a stream always has
+  a missing number or a plan/count mismatch, so an Error event is demanded like for any other stream.
 """
 from __future__ import annotations
 
+import sys
 import typing as T
 
 WS = ' \t'
@@ -56,7 +62,36 @@ NAMED = (C_MISMATCH, C_DUP, C_MISSING, C_BEYOND, C_LATE, C_PLAN2, C_YAML, C_VERS
 T_OLDVER = 'declared-version-below-13'
 T_PLANDIR = 'plan-with-unsupported-trailer'
 
-MAX_DIGITS = 600   # longer digit runs: excluded (known defect class, see checks/c18_tap.py)
+
+def int_str_limit() -> int:
+    """digits the interpreter converts between str and int (sys.get_int_max_str_digits(), 0 = unlimited)"""
+    get = getattr(sys, 'get_int_max_str_digits', None)
+    return get() if get is not None else 0
+
+
+def to_int(digits: str) -> int:
+    """value of an ASCII digit string of any length (int() refuses strings beyond int_str_limit(); arithmetic does not)"""
+    n = 0
+    for i in range(0, len(digits), 1000):
+        chunk = digits[i:i + 1000]
+        n = n * 10 ** len(chunk) + int(chunk)
+    return n
+
+
+def is_big(digits: str) -> bool:
+    """The literal is longer than what the running interpreter converts with int().  The TAP documents put no bound on
+    test numbers; a harness may represent such a number in any way, so its *value* is not compared (see Interp.loose).
+    Everything else about the line is: it is one test / plan / version line, it must not make the parser raise, and
+    its exact value takes part in the reference's own counting (missing / beyond plan / plan-count classes)."""
+    lim = int_str_limit()
+    return bool(lim) and len(digits) > lim
+
+
+def show_num(n: T.Any) -> T.Any:
+    """JSON / message safe form of a number (str() of a huge int raises)"""
+    if isinstance(n, int) and n.bit_length() > 256:
+        return f'<number of about {n.bit_length() * 30103 // 100000 + 1} digits>'
+    return n
 
 
 class Line(T.NamedTuple):
@@ -66,6 +101,7 @@ class Line(T.NamedTuple):
     names: T.Optional[T.Tuple[str, ...]] = None   # admissible subtest names; None = not checked
     directive: T.Optional[str] = None              # 'SKIP' / 'TODO' / None
     trailer: bool = False          # plan: has a `#` trailer that is not a valid skip-all
+    big: bool = False              # num was written with more digits than int() converts (value not comparable)
     why: str = ''                  # reason when kind == 'unspecified'
 
 
@@ -149,9 +185,9 @@ def _classify(text: str) -> Line:
             k += 1
         if k == j:
             return _unspec('plan without count')
-        if k - j > MAX_DIGITS:
-            return _unspec('digit run too long')
-        n = int(line[j:k])
+        if is_big(line[j:k]) and line[j] == '0':
+            return _unspec('over-long number with leading zeros')
+        n = to_int(line[j:k])
         tail = line[k:]
         if not tail:
             return Line('plan', num=n)
@@ -171,11 +207,9 @@ def _classify(text: str) -> Line:
     if line.startswith('TAP version '):
         d = line[12:]
         if d and all(_isdig(c) for c in d):
-            if len(d) > MAX_DIGITS:
-                return _unspec('digit run too long')
             if len(d) > 1 and d[0] == '0':
                 return _unspec('version with leading zero')
-            return Line('version', num=int(d))
+            return Line('version', num=to_int(d))
         return _unspec('malformed version line')
     if low.startswith('tap version'):
         return _unspec('malformed version line')
@@ -188,12 +222,14 @@ def _test(ok: bool, rest: str) -> Line:
     i = 0
     while i < len(s) and _isdig(s[i]):
         i += 1
+    big = False
     if i:
-        if i > MAX_DIGITS:
-            return _unspec('digit run too long')
         if i < len(s) and s[i] not in WS:
             return _unspec('number glued to following text')
-        num = int(s[:i])
+        big = is_big(s[:i])
+        if big and s[0] == '0':
+            return _unspec('over-long number with leading zeros')
+        num = to_int(s[:i])
         s = s[i:].lstrip(WS)
     h = s.find('#')
     desc = (s if h < 0 else s[:h])
@@ -220,7 +256,7 @@ def _test(ok: bool, rest: str) -> Line:
             if '#' in after:
                 return _unspec('several hashes without directive at the first')
             names = None     # trailing comment that is no directive: result is plain, name not specified
-    return Line('test', num=num, ok=ok, names=names, directive=directive)
+    return Line('test', num=num, ok=ok, names=names, directive=directive, big=big)
 
 
 def result_of(ok: bool, directive: T.Optional[str]) -> str:
@@ -233,7 +269,7 @@ def result_of(ok: bool, directive: T.Optional[str]) -> str:
 
 class Interp:
     __slots__ = ('tests', 'classes', 'tolerated', 'bailout', 'unspecified', 'soft', 'version', 'n_lines',
-                 'has_plan', 'has_yaml', 'has_directive', 'has_version', 'numbers', 'plan')
+                 'has_plan', 'has_yaml', 'has_directive', 'has_version', 'plan', 'loose')
 
     def __init__(self) -> None:
         self.tests: T.List[T.Tuple[int, T.Optional[T.Tuple[str, ...]], str]] = []
@@ -248,8 +284,8 @@ class Interp:
         self.has_yaml = False
         self.has_directive = False
         self.has_version = False
-        self.numbers: T.List[int] = []
         self.plan: T.Optional[int] = None
+        self.loose: T.Set[int] = set()        # indexes into tests whose number derives from an over-long literal (value not compared)
 
     @property
     def named(self) -> T.List[str]:
@@ -269,6 +305,7 @@ def interpret(lines: T.Sequence[str]) -> Interp:
     plan_late = False
     count = 0
     last = 0
+    last_loose = False
     seen: T.Set[int] = set()
     after_test = False
     yaml_indent: T.Optional[str] = None
@@ -361,6 +398,9 @@ def interpret(lines: T.Sequence[str]) -> Interp:
         count += 1
         number = last + 1 if ln.num is None else ln.num
         last = number
+        last_loose = ln.big if ln.num is not None else last_loose     # counting on from an over-long number stays loose
+        if last_loose:
+            R.loose.add(len(R.tests))
         if ln.num == 0:
             R.soft.append('test number 0')
         if ln.directive:
@@ -375,7 +415,6 @@ def interpret(lines: T.Sequence[str]) -> Interp:
         if number in seen:
             flag(C_DUP, idx)
         seen.add(number)
-        R.numbers.append(number)
         R.tests.append((number, ln.names, result_of(ln.ok, ln.directive)))
         after_test = True
 
